@@ -47,7 +47,8 @@ def collision_pairs():
 class Split(Family):
     name = 'split'
     rule = ('exhaustive byte strings over {CR,LF,NUL,space,a} up to a bounded length x 10 newline patterns x both modes, '
-            'plus random longer strings; non-trivial = the data contains the newline at least once and at least one '
+            'plus random longer strings, size boundaries, harvested sizes, all byte values, lines colliding under crc32 / '
+            'adler32; non-trivial = the data contains the newline at least once and at least one '
             'other byte; distinct by (data, newline, mode)')
 
     def cases(self, tier, rng, prop_id):
@@ -252,7 +253,8 @@ class Spelling(Family):
             'numeric, stateless text codecs) x {unix, dos}: get_newline_for_type and guess_line_endings against the '
             'model and against the BOM-free incremental encoding; plus a write/read round trip of a preamble, a meta '
             'and a diff under a seeded sample (quick) / all (thorough) of the spellings of the ten modelled codecs, and of '
-            'texts whose encoded first line holds the newline bytes across a character boundary (wide codecs); '
+            'texts whose encoded first line holds the newline bytes across a character boundary (wide codecs), each followed '
+            'by sibling containers that fall back to the main encoding; '
             'non-trivial = the spelling differs from the canonical name; distinct by (spelling, kind)')
 
     def cases(self, tier, rng, prop_id):
